@@ -62,6 +62,17 @@ def run(args):
             raise C.Machinery("program %s ran out of fuel in the specification" % p["id"])
         src, spans = P.render(p)
         items.append((p["id"], {"family": p["feats"].get("family", "?")}, src, p.get("host") or None, None if c["status"] == "oom" else c, p))
+    # the same programs written with only the parentheses the operator table requires: the printers have to reproduce the
+    # precedence and associativity themselves (a tree without Grouped nodes)
+    from . import c20
+    mini = Fam.printer_programs() + T.typing_programs() + c20.class_programs(C.seed(), 8 if thorough else 3) + Fam.template_programs()[:25]
+    mini += ops if thorough else ops[C.seed() % 9::9]
+    mcases = sem.run_spec(mini, rep)
+    for p in mini:
+        c = mcases[p["id"]]
+        src, spans = P.render(p, minimal=True)
+        items.append((p["id"] + "/minimal", {"family": p["feats"].get("family", "?") + "-minimal"}, src, p.get("host") or None,
+                      None if c["status"] in ("oom", "run") else c, p))
     here = os.path.dirname(os.path.abspath(__file__))
     for f in sorted(glob.glob(os.path.join(here, "data", "*.hms"))):
         items.append(("data/" + os.path.basename(f), {"family": "forms-file"}, open(f, encoding="utf-8").read(), None, None, None))
